@@ -655,6 +655,46 @@ func (tr *fnTrans) specCall(x ECall, env *specEnv) (Term, error) {
 			return args[0], nil
 		}
 		return T(app(fmt.Sprintf("unbox_%s_string", args[0].T.Name), args[0].S), SStr), nil
+	case "holdsJsonNumber": // the dynamic type is encoding/json.Number (a named string type)
+		if args[0].T == nil || !args[0].T.Opaque {
+			return Term{}, fmt.Errorf("%s of a value that is not of an opaque interface sort", x.Fn)
+		}
+		tr.v.declareBox(args[0].T, SStr, "json_Number")
+		return T(app(fmt.Sprintf("is_%s_json_Number", args[0].T.Name), args[0].S), SBool), nil
+	case "boxedBool": // plain dynamic type test (no exclusion of the other basic types)
+		if args[0].T == nil || !args[0].T.Opaque {
+			return Term{}, fmt.Errorf("%s of a value that is not of an opaque interface sort", x.Fn)
+		}
+		tr.v.declareBox(args[0].T, SBool, "bool")
+		return T(app(fmt.Sprintf("is_%s_bool", args[0].T.Name), args[0].S), SBool), nil
+	case "unboxF64", "unboxBool", "holdsStr", "holdsF64", "holdsBool": // dynamic type tests / contents of an opaque interface value
+		if args[0].T == nil || !args[0].T.Opaque {
+			return Term{}, fmt.Errorf("%s of a value that is not of an opaque interface sort", x.Fn)
+		}
+		conc, tag := SStr, "string"
+		switch x.Fn {
+		case "unboxF64", "holdsF64":
+			conc, tag = SF64, "float64"
+		case "unboxBool", "holdsBool":
+			conc, tag = SBool, "bool"
+		}
+		tr.v.declareBox(args[0].T, conc, tag)
+		if strings.HasPrefix(x.Fn, "holds") {
+			// an interface value has one dynamic type: holding a string excludes holding a float64 or a bool.  The
+			// exclusion is part of the predicate (the boxing functions of different types are declared independently)
+			parts := []string{app(fmt.Sprintf("is_%s_%s", args[0].T.Name, tag), args[0].S)}
+			for _, o := range []struct {
+				s *Sort
+				t string
+			}{{SStr, "string"}, {SF64, "float64"}, {SBool, "bool"}} {
+				if o.t != tag {
+					tr.v.declareBox(args[0].T, o.s, o.t)
+					parts = append(parts, not(app(fmt.Sprintf("is_%s_%s", args[0].T.Name, o.t), args[0].S)))
+				}
+			}
+			return T(and(parts...), SBool), nil
+		}
+		return T(app(fmt.Sprintf("unbox_%s_%s", args[0].T.Name, tag), args[0].S), conc), nil
 	case "deref": // contents of the cell a pointer refers to
 		if args[0].T == nil || args[0].T.Name != "Int" || args[0].T.Elem == nil {
 			return Term{}, fmt.Errorf("deref of non-pointer")
